@@ -1758,11 +1758,12 @@ def corr_drun(ctx, res, oracle_only=False, scale=1.0):
         if c:
             c['vias'] = [c['via']]; c['pair_uncached'] = False
     else:
-        for kind in DRUN_KINDS:
+        for kind in ['subkelvin-heat', 'subkelvin-cool', rng.choice(['slow-heat', 'slow-cool']), rng.choice(['fast-heat', 'fast-cool']), 'hold-ramp-hold', 'micro', 'gradient']:
             for model, therm in (('single', 'nicr'), ('single', 'nicral'), ('homog', 'nicr'), ('homog', 'nicral')):
-                c = gen(model, therm, kind, N=rng.randint(6, 10), n=rng.randint(4, 8))
+                c = gen(model, therm, kind, N=rng.randint(6, 8), n=rng.randint(4, 6))
                 if c:
-                    c['vias'] = c['vias'][:2]
+                    c['vias'] = c['vias'][:rng.choice([1, 2])]
+                    c['check_every'] = 2
     for c in cases:
         check_drun_group(ctx, res, c, oracle_only)
     if cases:
